@@ -1,10 +1,10 @@
 package main
 
 import (
-	"sort"
 	"fmt"
 	"go/token"
 	"go/types"
+	"sort"
 	"strings"
 
 	"golang.org/x/tools/go/ssa"
@@ -68,6 +68,9 @@ func checkC12(p *Program, r *Report) {
 		r.Unresolved("C12.facts", "merkleblock.NewMerkleBlockFromMsg / (*PartialBlock).ExtractMatches")
 		return
 	}
+	// C12.unpack: the constructor turns flag byte k, bit b into flag number 8k+b, all of them
+	flagPackRule(p, r, "C12.unpack", []*ssa.Function{ctor}, 1, 1)
+	c12bitsLength(p, r, ctor)
 	recv := ssa.Value(ext.Params[0])
 	// the traversal: the in-repo callee of ExtractMatches that calls itself
 	var T *ssa.Function
@@ -287,6 +290,51 @@ func checkC12(p *Program, r *Report) {
 	}
 	r.Floor("C12.facts", 7)
 
+	// ---- C12.matches: what is recorded as a match depends on the node's height and flag bit only
+	{
+		roles := map[string]bool{bitsF.Name(): true, hashesF.Name(): true, bitCur.Name(): true, hashCur.Name(): true, numTx.Name(): true}
+		n := 0
+		for _, b := range T.Blocks {
+			for _, in := range b.Instrs {
+				st, ok := in.(*ssa.Store)
+				if !ok {
+					continue
+				}
+				fa, ok := st.Addr.(*ssa.FieldAddr)
+				if !ok || canonRoot(fa.X) != ssa.Value(T.Params[0]) {
+					continue
+				}
+				c, ok := st.Val.(*ssa.Call)
+				if !ok || !isBuiltin(&c.Call, "append") {
+					continue
+				}
+				f := fieldOfAddr(fa)
+				n++
+				var foreign []string
+				for _, cd := range MustCondsAtBlock(T, b) {
+					for _, leaf := range condLeaves(cd.V) {
+						okLeaf := strings.HasPrefix(leaf, "param ")
+						for role := range roles {
+							if leaf == "field "+role || leaf == "field "+role+"[·]" || leaf == "len(field "+role+")" {
+								okLeaf = true
+							}
+						}
+						if !okLeaf {
+							foreign = append(foreign, leaf)
+						}
+					}
+				}
+				sort.Strings(foreign)
+				foreign = dedup(foreign)
+				r.Add("C12.matches", FnName(T), "an entry is appended to "+f.Name()+" for every node at height 0 whose flag bit is set: the recording depends on the height, the flag bit and the cursors only", st.Pos(),
+					len(foreign) == 0, map[bool]string{true: "the guarding conditions read the height parameter, the flag bit and the cursors only", false: "conditions also look at: " + strings.Join(foreign, ", ")}[len(foreign) == 0])
+			}
+		}
+		if n == 0 {
+			r.Unresolved("C12.matches", "appends to the result lists in "+FnName(T))
+		}
+		r.Floor("C12.matches", 2)
+	}
 	// ---- C12.cursor
 	tlc := NewLinCtx(p, T)
 	tlc.alias = av.Run(T)
@@ -552,4 +600,40 @@ func checkC12(p *Program, r *Report) {
 		}
 	}
 	r.Floor("C12.latch", 3)
+}
+
+// c12bitsLength: the constructor expands every flag byte: the flag-bit slice it stores has 8·len(Flags) entries and
+// is not re-sliced afterwards ("a whole byte of unused flag bits rejects" is decided against this length).
+func c12bitsLength(p *Program, r *Report, ctor *ssa.Function) {
+	tb := NewTermBuilder(p, ctor)
+	found := false
+	for _, b := range ctor.Blocks {
+		for _, in := range b.Instrs {
+			st, ok := in.(*ssa.Store)
+			if !ok {
+				continue
+			}
+			fa, ok := st.Addr.(*ssa.FieldAddr)
+			if !ok || fieldOfAddr(fa).Name() != "bits" {
+				continue
+			}
+			found = true
+			ms, isMake := st.Val.(*ssa.MakeSlice)
+			how := "the stored flag-bit slice is not a make() result: " + exprString(st.Val)
+			ok2 := false
+			if isMake {
+				t := anonymise(tb.Term(ms.Len))
+				how = "len = " + tb.Term(ms.Len).String()
+				ok2 = (strings.HasPrefix(t, "*(len(") && strings.HasSuffix(t, ",#8)")) || (strings.HasPrefix(t, "*(#8,len(")) || (strings.HasPrefix(t, "<<(len(") && strings.HasSuffix(t, ",#3)"))
+				if ok2 && !strings.Contains(tb.Term(ms.Len).String(), "Flags") {
+					ok2 = false
+					how += " (not the length of the message's Flags)"
+				}
+			}
+			r.Add("C12.unpack", FnName(ctor), "the flag-bit slice has 8·len(Flags) entries", st.Pos(), ok2, how)
+		}
+	}
+	if !found {
+		r.Unresolved("C12.unpack", "store of the flag-bit slice in NewMerkleBlockFromMsg")
+	}
 }
